@@ -26,15 +26,17 @@ const levelNames = "LMQH"
 // symbol is one pristine symbol (built by the library, confirmed module for module by the
 // reference) together with the reference address maps used to damage it.
 type symbol struct {
-	Kind  string // "qr" | "dm"
-	Class string // "v7" | "144x144": the size class used in violation keys
-	V     int    // QR version
-	L     int    // QR level 0..3 = L M Q H
-	Mask  int    // QR mask
-	DMi   int    // index into dm.Symbols
-	Text  string
-	ord   int  // position in the symbol list (deterministic tie-break)
-	Twin  bool // the text is twinText (near-identical data blocks)
+	Kind   string // "qr" | "dm"
+	Class  string // "v7" | "144x144": the size class used in violation keys
+	V      int    // QR version
+	L      int    // QR level 0..3 = L M Q H
+	Mask   int    // QR mask
+	DMi    int    // index into dm.Symbols
+	Text   string
+	ord    int   // position in the symbol list (deterministic tie-break)
+	Twin   bool  // the text is twinText (near-identical data blocks)
+	Latin1 bool  // written with the ISO-8859-1 hint (byte-aligned data: padText)
+	pad    []int // (block, phase) of padText, for replay records
 
 	w, h    int
 	rows    []*gozxing.BitArray // pristine rows; every decode gets a fresh matrix
@@ -232,15 +234,26 @@ func twinText(v, l int) string {
 }
 
 func buildQRText(v, l, mask int, text string, twin bool) (s *symbol, problem string) {
+	return buildQRLatin1(v, l, mask, text, twin, false)
+}
+
+// buildQRLatin1: with latin1 set the text (code points <= U+00FF) is written with the ISO-8859-1
+// hint: the 12-bit ECI header makes the byte segment byte-aligned, so every data codeword after
+// the three header codewords is one text byte - the data blocks can then be chosen freely.
+func buildQRLatin1(v, l, mask int, text string, twin, latin1 bool) (s *symbol, problem string) {
 	L := qr.Level(l)
-	s = &symbol{Kind: "qr", Class: fmt.Sprintf("v%d", v), V: v, L: l, Mask: mask, Text: text, Twin: twin}
+	s = &symbol{Kind: "qr", Class: fmt.Sprintf("v%d", v), V: v, L: l, Mask: mask, Text: text, Twin: twin, Latin1: latin1}
 	var code *qrencoder.QRCode
 	var err error
 	msg, site := mc.Guard(func() {
-		c, e := qrencoder.Encoder_encode(text, libLevels[l], map[gozxing.EncodeHintType]interface{}{
+		h := map[gozxing.EncodeHintType]interface{}{
 			gozxing.EncodeHintType_QR_VERSION:      v,
 			gozxing.EncodeHintType_QR_MASK_PATTERN: mask,
-		})
+		}
+		if latin1 {
+			h[gozxing.EncodeHintType_CHARACTER_SET] = "ISO-8859-1"
+		}
+		c, e := qrencoder.Encoder_encode(text, libLevels[l], h)
 		code = c
 		if e != nil {
 			err = e
@@ -252,7 +265,21 @@ func buildQRText(v, l, mask int, text string, twin bool) (s *symbol, problem str
 	if err != nil || code == nil || code.GetMatrix() == nil {
 		return s, fmt.Sprintf("library encoder refused the payload: %v", err)
 	}
-	data, e := qr.DataCodewordsFor([]qr.Segment{{Mode: qr.Byte, Data: []byte(text), ECI: -1}}, v, L)
+	seg := qr.Segment{Mode: qr.Byte, Data: []byte(text), ECI: -1}
+	if latin1 {
+		b := make([]byte, 0, len(text))
+		for _, r := range text {
+			b = append(b, byte(r))
+		}
+		seg = qr.Segment{Mode: qr.Byte, Data: b, ECI: 1}
+		if code.GetMatrix() != nil {
+			// the designator for ISO-8859-1 may be 1 or 3 (both are registered for it): follow the symbol
+			if _, _, _, d0, e0 := qr.Read(toBoolsByteMatrix(code.GetMatrix())); e0 == nil && len(d0) > 1 && d0[0] == 0x70 && d0[1]>>4 == 3 {
+				seg.ECI = 3
+			}
+		}
+	}
+	data, e := qr.DataCodewordsFor([]qr.Segment{seg}, v, L)
 	if e != nil {
 		panic("harness: reference cannot encode the payload: " + e.Error())
 	}
@@ -330,6 +357,44 @@ func buildQRText(v, l, mask int, text string, twin bool) (s *symbol, problem str
 		}
 	}
 	return s, ""
+}
+
+func toBoolsByteMatrix(m *qrencoder.ByteMatrix) [][]bool {
+	out := make([][]bool, m.GetHeight())
+	for y := range out {
+		out[y] = make([]bool, m.GetWidth())
+		for x := range out[y] {
+			out[y][x] = m.Get(x, y) == 1
+		}
+	}
+	return out
+}
+
+// padText: a Latin-1 text of exactly the byte capacity (behind the ECI header) in which ONE whole
+// data block - block b - spells the pad codeword sequence EC 11 EC 11 ... (phase 0) or 11 EC 11 EC ...
+// (phase 1); everything else is ordinary text.
+func padText(v, l, b, phase int) string {
+	L := qr.Level(l)
+	sizes := qr.Blocks(v, L)
+	hdr := 3
+	if v >= 10 {
+		hdr = 4
+	}
+	n := qr.DataCodewords(v, L) - hdr
+	rs := make([]rune, n)
+	for i := range rs {
+		rs[i] = rune(alphabet[(i*11+5)%len(alphabet)])
+	}
+	off := 0
+	for k := 0; k < b; k++ {
+		off += sizes[k]
+	}
+	for i := 0; i < sizes[b]; i++ {
+		if p := off + i - hdr; p >= 0 && p < n {
+			rs[p] = rune([]int{0xEC, 0x11}[(i+phase)%2])
+		}
+	}
+	return string(rs)
 }
 
 func toBools(bm *gozxing.BitMatrix) [][]bool {
